@@ -7,6 +7,11 @@ HERE = os.path.dirname(os.path.dirname(os.path.abspath(__file__)))
 
 # property -> (technique, level text, level note)   -- only properties with a working check
 CLAIMED = {
+    "C01": (
+        "bounded symbolic execution of the real object (de)serialisation code (ksym): symbolic field bytes/ints for the kernels, solver-forked setter histories for the cache-invalidation clause",
+        "Timezones: format/parse are mutual inverses on every whole-minute offset within +-100 h and on all 20 000 [+-]HHMM spellings incl. -0000; identity/time/zone lines round-trip for symbolic identities and times (|t|<=10^5 quick, 2^62 thorough); every pair of tree entries (names of 1..3 symbolic bytes, any 16-bit mode) is ordered as git's base_name_compare; parse_tree(serialize_tree) is the identity for symbolic names and modes; folded multi-line headers and bodies survive _format_message/_parse_message; for every history of 2-3 setter calls / id reads on live Commit, Tag, Tree and Blob objects the bytes equal a fresh serialisation and the name is the SHA-1 and SHA-256 of header+content; a parsed commit re-serialises byte-identically and changing one field leaves every other byte unchanged. One genuine defect (stale Blob id) was repaired. Git-identity of whole objects is only claimed through the reference order/format models.",
+        "Trusted: z3, ksym (decimal rendering as a definitional extension, exact-rational model of int(x/100) under a discharged |x|<2^53 obligation), hashlib (used as the oracle on concrete bytes), the base_name_compare reference.",
+    ),
     "C02": (
         "bounded symbolic execution of the real pack kernels (ksym: instrumented source on z3 bit-vectors), solver-decided round-trip assertions",
         "For every object type and every size / OFS offset below 2^63 the real header encoder and decoders are mutual inverses and produce git's canonical length; the offset decoder is total on every varint of <= 4 bytes; bisect_find_sha is exact on every sorted table of <= 5 first-byte-distinguished names. Decided by z3 over all values in those bounds, per path of the real code; nothing is claimed outside them (zlib payloads, index files, delta chains are outside this check so far).",
